@@ -377,3 +377,8 @@ package proxy
 //@   sink [C13] provider_is_the_default_when_none_stated: newProvider requires upstreamConfig.ProviderSlug == "" ==> $arg3.DefaultConfig.ProviderSlug == config.UpstreamConfigs.DefaultConfig.ProviderSlug
 //@   sink [C13] backend_is_the_upstreams_own: NewUpstreamReverseProxy requires $arg0 == upstreamConfig
 //@   sink [C13] policy_is_the_upstreams_own: SetUpstreamConfig requires $arg0 == upstreamConfig
+
+// ---- C02: the proxy's cookie cipher is keyed with the whole decoded cookie secret ---------------------------------
+//@ func SetCookieStore$1(op *OAuthProxy) error
+//@   modifies everything
+//@   sink [C02] cookie_cipher_keyed_with_the_whole_cookie_secret: CreateMiscreantCookieCipher requires called(@DecodeString#1) && @DecodeString#1.1 == nil && arg(@DecodeString#1, 1) == cc.Secret && $arg0 == @DecodeString#1.0
